@@ -397,7 +397,11 @@ def _after_build(pid, args, seed, t0, reg, known, tier, facts, facts_changed, bu
         'violations': len(unlisted),
     }
     if not args.replay:
-        write_json(os.path.join(VERIF, 'evidence', f'{pid}.json'), ev)
+        # evidence/ describes runs against /repo itself; a run against another tree (candidate
+        # repair, seeded change) leaves its record under .work/ instead
+        evdir = os.path.join(VERIF, 'evidence') if os.path.realpath(REPO) == '/repo' \
+            else os.path.join(WORK, 'evidence-other-tree')
+        write_json(os.path.join(evdir, f'{pid}.json'), ev)
     for ln in lines:
         print(ln)
     print(f'{pid} {tier} seed={seed}: obligations {discharged}/{len(names)} discharged, '
